@@ -300,10 +300,35 @@ def p_gcp_pickle():
     wld = np.array([(100, 50), (110, 50), (100, 40), (110, 40), (105, 45), (103, 43)], dtype=float)
     g = GCPGeoBox((10, 10), GCPMapping(pix, wld, "EPSG:4326"))
     bad = []
-    for how, c in (("pickle", pickle.loads(pickle.dumps(g))), ("deepcopy", copy.deepcopy(g)),
-                   ("rebuilt", GCPGeoBox((10, 10), GCPMapping(pix.copy(), wld.copy(), "EPSG:4326")))):
-        if not (c == g and g == c and hash(c) == hash(g) and tokenize(c) == tokenize(g)):
-            bad.append(f"{how}: ==:{c == g} hash:{hash(c) == hash(g)} token:{tokenize(c) == tokenize(g)}")
+
+    def clones(tag):
+        try:
+            cc = (("pickle", pickle.loads(pickle.dumps(g))), ("deepcopy", copy.deepcopy(g)),
+                  ("rebuilt", GCPGeoBox((10, 10), GCPMapping(pix.copy(), wld.copy(), "EPSG:4326"))))
+        except Exception as e:  # noqa: BLE001
+            bad.append(f"{tag}: {type(e).__name__}: {e}")
+            return
+        for how, c in cc:
+            if not (c == g and g == c and hash(c) == hash(g) and tokenize(c) == tokenize(g)):
+                bad.append(f"{tag} {how}: ==:{c == g} hash:{hash(c) == hash(g)} token:{tokenize(c) == tokenize(g)}")
+            elif how != "rebuilt" and c.pix2wld(2.0, 3.0) != g.pix2wld(2.0, 3.0):
+                bad.append(f"{tag} {how}: clone maps pixel (2,3) to {c.pix2wld(2.0, 3.0)}, original to {g.pix2wld(2.0, 3.0)}")
+
+    clones("fresh")
+    # the same after the value was USED (pixel<->world conversions build and cache the polynomial fits)
+    g.wld2pix(*g.pix2wld(1.0, 2.0))
+    _ = (g.extent, g.approx, g.resolution)
+    clones("after pix2wld/wld2pix")
+    # crops and zooms of a used box
+    g = g[2:8, 1:9].zoom_out(2)
+    g.pix2wld(0.5, 0.5)
+    pix, wld = None, None
+    try:
+        c = pickle.loads(pickle.dumps(g))
+        if not (c == g and hash(c) == hash(g) and tokenize(c) == tokenize(g) and c.pix2wld(1.0, 1.0) == g.pix2wld(1.0, 1.0)):
+            bad.append("cropped+zoomed used box: clone differs")
+    except Exception as e:  # noqa: BLE001
+        bad.append(f"cropped+zoomed used box: {type(e).__name__}: {e}")
     return not bad, "; ".join(bad) or "clones equal, same hash and token"
 
 
